@@ -1,5 +1,9 @@
 import Driver.Common
+import Driver.Val
 import TxdbusModel.Proto.Framing
+import TxdbusModel.Proto.Receive
+import TxdbusModel.Msg.WireCodec
+import TxdbusModel.Gen.Message
 /-!
 Driver for property C04: runs the code model of `BasicDBusProtocol.dataReceived` over a list of reads.
 
@@ -15,6 +19,16 @@ Output line: the effects in order, `M<hex>` raw message, `L<hex>` auth line, `X`
 `!` exception, then `| <buffer hex> <nextMsgLen> <big 0|1> <authenticated> <firstByte> <closed>`.
 
     O <hex>            the pre-repair recursive binary branch on one read: `<n messages> <depth>`
+
+    P <client 0|1> <authenticated 0|1> <script> <read> <read> ...
+                       the COMPOSED model (Proto/Receive.lean `receive`): the framing model over the reads, then C03's
+                       model of `message.parseMessage(raw, [])` (Msg/Message.lean, body codec = C01's code model
+                       `wireCodec`, tables `Gen.Message.tables`) on every delivered frame.
+                       -> the output of `R`, then ` || `, then per delivered frame (separated by ` ; `)
+                       `ok type=<n> serial=<n> er=<T|F> as=<T|F> of=<otherFlags> path=<attr> interface=.. member=..
+                       error_name=.. reply_serial=.. destination=.. sender=.. signature=.. unix_fds=.. body=<N | value>`
+                       or `err <ExceptionName>`;  attr = N | s<strhex> | i<dec> | b0 | b1 | d<16 hex> | ?other;
+                       value in the syntax of Driver/Val.lean.  (`-` when nothing was delivered.)
 -/
 open Txdbus.Proto
 
@@ -70,8 +84,53 @@ def mapMTR {α β : Type} (f : α → Option β) : List α → List β → Optio
     | some b => mapMTR f t (b :: acc)
     | none => none
 
+def attrStr : Txdbus.PyVal → String
+  | .none => "N"
+  | .bool b => if b then "b1" else "b0"
+  | .int _ n => "i" ++ toString n
+  | .float w => "d" ++ Driver.u64ToHex w
+  | .str _ s => "s" ++ Driver.charsToHex s
+  | _ => "?other"
+
+def attrNames : List (Txdbus.Msg.Attr × String) :=
+  [(.path, "path"), (.interface, "interface"), (.member, "member"), (.errorName, "error_name"),
+   (.replySerial, "reply_serial"), (.destination, "destination"), (.sender, "sender"),
+   (.signature, "signature"), (.unixFds, "unix_fds")]
+
+def tf (b : Bool) : String := if b then "T" else "F"
+
+/-- Step budget of the body codec (as Driver/C03.lean, Driver/WireOps.lean). -/
+def wFuel : Nat := 300
+
+def showParsed (r : Except Txdbus.PyErr (Txdbus.Msg.Msg Txdbus.PyVal)) : String :=
+  match r with
+  | .error e => "err " ++ Driver.pyErrName e
+  | .ok m =>
+    "ok type=" ++ toString (Txdbus.Gen.Message.tables.messageType m.cls) ++ " serial=" ++ toString m.serial ++
+    " er=" ++ tf m.expectReply ++ " as=" ++ tf m.autoStart ++ " of=" ++ toString m.otherFlags ++
+    String.join (attrNames.map fun (a, n) => " " ++ n ++ "=" ++ attrStr (m.attrs a)) ++
+    " body=" ++ (match m.body with
+                 | none => "N"
+                 | some v => Driver.printVal v)
+
+def showState (s : St (List AuthRes)) (effs : List Effect) : String :=
+  let o := showEffects effs
+  let o := pushHex (o ++ "| ") s.buffer
+  o ++ " " ++ toString s.nextMsgLen ++ " " ++ b01 s.bigEndian ++ " " ++ b01 s.authenticated
+    ++ " " ++ b01 s.firstByte ++ " " ++ b01 s.closed
+
 def handle (line : String) : String :=
   match Driver.words line with
+  | "P" :: c :: a :: sc :: reads =>
+    match parseScript sc, mapMTR parseHex reads [] with
+    | some script, some rs =>
+      let s0 : St (List AuthRes) :=
+        { client := c == "1", buffer := [], nextMsgLen := 0, bigEndian := false,
+          authenticated := a == "1", firstByte := true, closed := false, auth := script }
+      let r := receive Txdbus.Gen.Message.tables (Txdbus.Msg.wireCodec wFuel) scripted s0 rs (some [])
+      let parsed := r.2.2.map showParsed
+      showState r.1 r.2.1 ++ " || " ++ (if parsed.isEmpty then "-" else " ; ".intercalate parsed)
+    | _, _ => "error bad-input"
   | "R" :: c :: a :: sc :: reads =>
     match parseScript sc, mapMTR parseHex reads [] with
     | some script, some rs =>
